@@ -37,6 +37,7 @@ fn generators(cfg: &Cfg) -> Vec<Generator> {
         Generator { name: "accept", total: cfg.tier.pick(1_200, 40_000), run: run_accept, case_cpu_limit_s: 120 },
         Generator { name: "reject", total: cfg.tier.pick(1_200, 40_000), run: run_reject, case_cpu_limit_s: 120 },
         Generator { name: "catalogue", total: crate::props::catalogue::cases().len() as u64, run: run_catalogue, case_cpu_limit_s: 120 },
+        Generator { name: "escapes", total: cfg.tier.pick(160, 4_000), run: run_escape, case_cpu_limit_s: 120 },
     ]
 }
 
@@ -148,6 +149,79 @@ fn run_catalogue(_cfg: &Cfg, index: u64, stats: &mut Stats) {
             generator: "catalogue".into(),
             index,
             detail: json!({"case": case.name, "verdict": analyzed.verdict.brief(), "sources": sources.to_json()}),
+        });
+    }
+}
+
+/* ------------------------------------------------------------------------------------------------------------
+ * Where a package is opened must not matter for the scope of its witness: the package pattern `(X, v, g)` sits at a
+ * random position of a random tuple pattern (first, middle, last component; one level down), in a value-level `let` or
+ * an abstraction binder of a pure function. The escaping variant returns `(v, g)`, whose type mentions X - it must be
+ * rejected (and if it is accepted, the program applies the Int64 function of one package to the unit of another); the
+ * well-scoped variant returns `g v : Int64` and must be accepted and exit with 7.
+ * ------------------------------------------------------------------------------------------------------------ */
+
+fn run_escape(cfg: &Cfg, index: u64, stats: &mut Stats) {
+    let mut rng = Rng::for_case(cfg.seed, "C03/escapes", index);
+    let k = 1 + rng.below(4); // components of the tuple around the package (1 = the package alone)
+    let position = rng.below(k);
+    let nested = k > 1 && rng.chance(1, 3);
+    let binder = rng.below(2); // 0 = value-level let, 1 = abstraction binder
+    let escaping = index % 2 == 0;
+    let package_pattern = "(X, v, g)";
+    let component = |i: usize, package: &str, other: &str| -> String {
+        if i == position {
+            if nested { format!("({other}, {package})") } else { package.to_string() }
+        } else {
+            other.to_string()
+        }
+    };
+    let tuple = |package: &str, other: &str| -> String {
+        if k == 1 {
+            component(0, package, other)
+        } else {
+            format!("({})", (0..k).map(|i| component(i, package, other)).collect::<Vec<_>>().join(", "))
+        }
+    };
+    let pattern = tuple(package_pattern, "_");
+    let value = tuple("b", "()");
+    let ty = tuple("Box", "Unit").replace(", ", " * ");
+    let result = if escaping { "(v, g)" } else { "g v" };
+    let open = match binder {
+        | 0 => format!("let open = fn (b : Box) => let {pattern} = {value} in {result} that\n"),
+        | _ => format!("let open = fn (b : Box) => (fn ({pattern} : {ty}) => {result}) {value} that\n"),
+    };
+    let tail = if escaping {
+        "let (v1, g1) = open units that\nlet (v2, g2) = open ints that\nlet n = g2 v1 that\n! exit n\n"
+    } else {
+        "let n = open ints that\n! exit n\n"
+    };
+    let body = format!(
+        "begin\nlet Box = exists (X : VType) . X * (X -> Int64) that\ndef ints : Box = (Int64, 7, fn (x : Int64) => x) that\ndef units : Box = (Unit, (), fn (_ : Unit) => 0) that\n{open}{tail}end\n"
+    );
+    let sources = Sources::single(format!("{}{}", crate::prelude::MiniPrelude::core().text(), body));
+    let result = pipeline::check_and_run(&sources, b"", &[], 100_000);
+    stats.evaluations += 1;
+    let shape = format!("{} of {k}{} in {}", position, if nested { " nested" } else { "" }, if binder == 0 { "let" } else { "abstraction" });
+    stats.cover("escape_shapes", &shape);
+    stats.nontrivial(format!("{shape} {escaping}").as_bytes());
+    let ok = if escaping {
+        result.verdict.is_reject()
+    } else if binder == 1 {
+        // the documented rules reject an opened witness below an abstraction binder even when it stays in scope
+        // ("package witness arity"): only the value-level let has a well-scoped variant that must be accepted
+        !matches!(result.verdict, Verdict::Panic(_)) && (result.verdict.is_reject() || matches!(result.run.as_ref().map(|r| &r.end), Some(pipeline::End::Exit(7))))
+    } else {
+        matches!((&result.verdict, result.run.as_ref().map(|r| &r.end)), (Verdict::Checked, Some(pipeline::End::Exit(7))))
+    };
+    stats.count(if escaping { "escapes_rejected_as_required" } else { "scoped_uses_accepted_as_required" });
+    if !ok {
+        stats.violation(Violation {
+            signature: if escaping { "witness-escape-accepted".into() } else { "well-scoped-package-use-rejected".into() },
+            tags: vec![shape.clone()],
+            generator: "escapes".into(),
+            index,
+            detail: json!({"package_pattern_at": shape, "escaping": escaping, "verdict": result.verdict.brief(), "end": result.run.as_ref().map(|r| format!("{:?}", r.end)), "sources": sources.to_json()}),
         });
     }
 }
